@@ -815,6 +815,8 @@ static void h_step_genall (int level) {
 
 static long h_run_result;
 static int h_run_mode = -1; /* -1: as linked; 0: MIR_interp; 1: through func_item->addr */
+static int h_run_out;       /* run2: the function takes (i64 arg, p out) — out is a scratch buffer */
+static int64_t h_scratch[16];
 static void h_step_run (const char *fname, long arg) {
   static char *h_argv[] = {"prog", NULL};
   static char *h_env[] = {NULL};
@@ -831,7 +833,11 @@ static void h_step_run (const char *fname, long arg) {
     if (h_run_mode == 0 || (h_run_mode < 0 && h_iface == 0)) {
       MIR_val_t v, a[3];
       v.i = 0;
-      if (nargs == 0)
+      if (h_run_out && nargs == 2) {
+        a[0].i = arg;
+        a[1].a = h_scratch;
+        MIR_interp_arr (h_ctx, f, &v, 2, a);
+      } else if (nargs == 0)
         MIR_interp_arr (h_ctx, f, &v, 0, NULL);
       else if (nargs == 1) {
         a[0].i = arg;
@@ -845,7 +851,9 @@ static void h_step_run (const char *fname, long arg) {
       h_run_result = (long) v.i;
     } else {
       void *addr = f->addr;
-      if (nargs == 0)
+      if (h_run_out && nargs == 2)
+        h_run_result = (long) ((uint64_t (*) (long, int64_t *)) addr) (arg, h_scratch);
+      else if (nargs == 0)
         h_run_result = (long) ((uint64_t (*) (void)) addr) ();
       else if (nargs == 1)
         h_run_result = (long) ((uint64_t (*) (long)) addr) (arg);
@@ -1525,7 +1533,11 @@ int main (int argc, char **argv) {
     else if (strcmp (st, "link") == 0) h_step_link (a1, a2 ? atoi (a2) : 2);
     else if (strcmp (st, "genall") == 0) h_step_genall (a1 ? atoi (a1) : 2);
     else if (strcmp (st, "run") == 0) h_step_run (a1 ? a1 : "main", a2 ? atol (a2) : 10);
-    else if (strcmp (st, "lrefcheck") == 0) h_step_lrefcheck (a1 != NULL && a1[0] == 'v');
+    else if (strcmp (st, "run2") == 0) {
+      h_run_out = 1;
+      h_step_run (a1 ? a1 : "f", a2 ? atol (a2) : 0);
+      h_run_out = 0;
+    } else if (strcmp (st, "lrefcheck") == 0) h_step_lrefcheck (a1 != NULL && a1[0] == 'v');
     else if (strcmp (st, "irun") == 0 || strcmp (st, "grun") == 0) {
       h_run_mode = st[0] == 'i' ? 0 : 1;
       h_step_run (a1 ? a1 : "main", a2 ? atol (a2) : 10);
